@@ -64,8 +64,17 @@ func c03Do(m *message.Message, op int) (res int) {
 	}
 }
 
+var c03Hung int // calls that did not return; after a few the sweep stops executing (fail fast)
+
 // runSeq runs one operation sequence on a fresh message under a watchdog.
 func c03RunSeq(ctor int, ops []int) []int {
+	if c03Hung >= 3 {
+		rs := make([]int, len(ops))
+		for i := range rs {
+			rs[i] = 5
+		}
+		return rs
+	}
 	done := make(chan []int, 1)
 	go func() {
 		m := c03NewMsg(ctor)
@@ -79,6 +88,8 @@ func c03RunSeq(ctor int, ops []int) []int {
 	case rs := <-done:
 		return rs
 	case <-time.After(2 * time.Second):
+		c03Hung++
+		c03HungCases = append(c03HungCases, c03SeqCase{Ctor: ctor, Ops: ops})
 		rs := make([]int, len(ops))
 		for i := range rs {
 			rs[i] = 5
@@ -118,7 +129,10 @@ type c03SeqOut struct {
 	MaxLen int        `json:"maxlen"`
 	Sweep  [][]uint64 `json:"sweep"`  // per constructor: packed results in canonical order
 	Random []c03SeqCase `json:"random"` // longer random sequences, explicit
+	Hung   []c03SeqCase `json:"hung"`   // sequences on which a call did not return (first few; then the run stops)
 }
+
+var c03HungCases []c03SeqCase
 type c03SeqCase struct {
 	Ctor int   `json:"ctor"`
 	Ops  []int `json:"ops"`
@@ -154,6 +168,7 @@ func cmdC03Seq(args []string) error {
 		}
 		res.Random = append(res.Random, c03SeqCase{Ctor: ctor, Ops: ops, Res: c03RunSeq(ctor, ops)})
 	}
+	res.Hung = c03HungCases
 	return writeJSON(*out, res)
 }
 
@@ -184,7 +199,8 @@ func cmdC03Conc(args []string) error {
 	rt := hookrt.Install(*seed)
 	defer hookrt.Uninstall()
 	var cases []c03ConcCase
-	for ci := 0; ci < *ncases; ci++ {
+	nhung := 0
+	for ci := 0; ci < *ncases && nhung < 3; ci++ {
 		rt.Reset()
 		rt.Perturb("message.ack.locked", 0.6)
 		rt.Perturb("message.nack.locked", 0.6)
@@ -232,6 +248,7 @@ func cmdC03Conc(args []string) error {
 		case <-done:
 		case <-time.After(5 * time.Second):
 			hung = true
+			nhung++
 		}
 		c := c03ConcCase{Ctor: ctor, Progs: progs, Hung: hung}
 		for _, e := range rt.Log() {
